@@ -85,7 +85,7 @@ ASSUMPTIONS = [
     "process-global state: every eighth random history runs under np.errstate(all='raise') and unusual print options with a workload that raises no floating-point flag (expected = default-state behaviour); torch state and quantem.config are not touched by Vector and are not varied",
     "neutral calls between the steps of half of the densely observed random histories: repr, str, copy() (dropped), property reads, iteration, np.asarray(v[f]), flatten(), copy.copy / copy.deepcopy, occasionally save(); Vector has no __len__ (TypeError on the unchanged tree, not generated); after each such call every live vector is compared with its model (neutral_call_changed_state)",
 ]
-BUDGET = {"quick": {"soft_s": 150}, "thorough": {"soft_s": 900}}
+BUDGET = {"quick": {"soft_s": 300}, "thorough": {"soft_s": 1200}}
 MIN_EVALUATIONS = {"quick": 2000, "thorough": 50000}
 REQUIRED_COUNTERS = ["eval:state_mismatch", "eval:class_invariant", "eval:result_mismatch", "eval:flatten_law", "eval:shared_storage", "eval:bystander_changed", "eval:exception", "eval:invalid_accepted", "eval:metadata_leak", "eval:returned_value_changed", "eval:argument_modified", "eval:partial_failure_state", "eval:neutral_call_changed_state"]
 EXHAUSTIVE = {"quick": False, "thorough": False}
